@@ -38,3 +38,85 @@ Print Assumptions C05_curves_span_total_duty.
 Theorem C05_above_plus_below : forall ss T, wfs ss -> heat_above ss T + heat_below ss T == duty ss.
 Proof. exact heat_above_below. Qed.
 Print Assumptions C05_above_plus_below.
+
+(* ------------------------------------------------------------------ "... including rows inserted later"
+   Composition with the C08 model of ProblemTable.insert_temperature_interval (model/Insert.v): `run t0 reqss` is the table
+   after a history of calls, a table being a list of rows with `option Q` cells; `hcell j r` is the j-th interpolated column
+   of row r and j_hot / j_cold / j_net are the positions of H_hot / H_cold / H_net among INTERPOLATION_KEYS (computed from
+   the generated constants).  `represents p t0`: the row table t0 agrees with the column table p in T, H_hot, H_cold, H_net
+   (every other column is unconstrained).  Proofs: proofs/ComposeInsertCascade.v (+ proofs/InsertPL.v). *)
+From OP Require Import model.Insert proofs.Insert proofs.InsertCurve proofs.InsertSeq proofs.InsertPL proofs.ComposeInsertCascade.
+
+(* Every clause of C05_curves_are_stream_heat_contents holds at EVERY row -- original or inserted, inside, above or below
+   the original temperature range -- of the table obtained from the cascade's table by ANY history of insertions. *)
+Theorem C05_inserted_rows_stay_on_the_curves :
+  forall hot cold extra, wfs hot -> wfs cold -> hot ++ cold <> [] ->
+  on_lattice (endpoints (hot ++ cold ++ extra)) ->
+  gaps_b act_window (grid_of (endpoints (hot ++ cold ++ extra))) = true ->
+  forall t0, represents (stage_model act_window hot cold extra) t0 ->
+  forall reqss r, In r (fst (run t0 reqss)) ->
+  exists hh hc hn, hcell j_hot r = Some hh /\ hcell j_cold r = Some hc /\ hcell j_net r = Some hn
+    /\ hh == heat_below hot (model.Insert.rT r)
+    /\ hc == Qc_of (stage_model act_window hot cold extra) + heat_below cold (model.Insert.rT r)
+    /\ hn == hc - hh
+    /\ hn == Qh_of (stage_model act_window hot cold extra) - Dnet hot cold (model.Insert.rT r) /\ 0 <= hn.
+Proof. exact stage_inserted_rows_exact. Qed.
+Print Assumptions C05_inserted_rows_stay_on_the_curves.
+
+(* The same for ANY table (not only the model's): rows more than tolv apart, temperatures containing every stream end
+   point, the three curve clauses true at its rows (clauses_at: H_hot = heat_below hot T, H_cold = offset + heat_below cold T,
+   H_net = H_cold - H_hot) ==> the clauses are true at every row after any history of insertions. *)
+Theorem C05_curve_clauses_survive_insertions :
+  forall tolv, 0 <= tolv -> forall hot cold, wfs hot -> wfs cold -> forall offset jh jc jn t0,
+  WF tolv t0 -> covers (map model.Insert.rT t0) (eps_all hot cold) ->
+  (forall r, In r t0 -> clauses_at hot cold offset jh jc jn r) ->
+  forall reqss r, In r (fst (run_t tolv t0 reqss)) -> clauses_at hot cold offset jh jc jn r.
+Proof. exact curve_clauses_survive. Qed.
+Print Assumptions C05_curve_clauses_survive_insertions.
+
+(* The reason, for an arbitrary function f: a column that carries f at its rows, where f is linear between consecutive row
+   temperatures and constant above the first / below the last one (pwl), carries f at every row after any history, because
+   inserted cells are linear interpolations (inside) or copies of the end value (outside). *)
+Theorem C05_column_stays_on_a_piecewise_linear_function :
+  forall tolv, 0 <= tolv -> forall j f t0, WF tolv t0 -> on_curve j f t0 -> pwl f (map model.Insert.rT t0) ->
+  forall reqss, on_curve j f (fst (run_t tolv t0 reqss)).
+Proof. exact on_curve_survives. Qed.
+Print Assumptions C05_column_stays_on_a_piecewise_linear_function.
+
+(* ... and the exact heat content below T is such a function on every descending grid that contains all stream end points *)
+Theorem C05_heat_content_is_piecewise_linear_on_the_grid :
+  forall ss g, wfs ss -> desc g -> covers g (endpoints ss) -> pwl (heat_below ss) g.
+Proof. exact heat_below_pwl. Qed.
+Print Assumptions C05_heat_content_is_piecewise_linear_on_the_grid.
+
+(* The targets read from the end rows (Qh = H_net of the first row, Qc = H_net of the last row, Qr = H_hot of the first row
+   - Qc) are the same after any history of insertions.  The end ROWS are not: a temperature inserted above the top (below
+   the bottom) becomes the new first (last) row; it copies the interpolated cells of the old end row. *)
+Theorem C05_targets_survive_insertions :
+  forall hot cold extra, wfs hot -> wfs cold -> hot ++ cold <> [] ->
+  on_lattice (endpoints (hot ++ cold ++ extra)) ->
+  gaps_b act_window (grid_of (endpoints (hot ++ cold ++ extra))) = true ->
+  forall t0, represents (stage_model act_window hot cold extra) t0 ->
+  forall reqss, let t' := fst (run t0 reqss) in
+  Qh_tab t' == Qh_of (stage_model act_window hot cold extra) /\ Qc_tab t' == Qc_of (stage_model act_window hot cold extra)
+  /\ Qr_tab t' == Qr_of (stage_model act_window hot cold extra)
+  /\ model.Insert.rT (hd row0 t0) <= model.Insert.rT (hd row0 t') /\ model.Insert.rT (last t' row0) <= model.Insert.rT (last t0 row0).
+Proof. exact stage_targets_survive. Qed.
+Print Assumptions C05_targets_survive_insertions.
+
+(* non-vacuity: the table of the cascade model always has a representative row table ... *)
+Theorem C05_model_table_is_representable : forall w hot cold g, represents (pta w hot cold g) (embed (pta w hot cold g)).
+Proof. exact embed_represents. Qed.
+Print Assumptions C05_model_table_is_representable.
+
+(* ... and on the four-stream example three calls (100 inside and 300 above; 0 below; 245 already present) add three rows,
+   H_hot of every row equals the hot streams' heat content below its temperature, and the end-row targets stay 16.5 / 10 *)
+Theorem C05_inserted_rows_example :
+  let t' := fst (run ex_t0 [[100; 300]; [0]; [245]]) in
+  map model.Insert.rT ex_t0 = [245; 235; 195; 185; 145; 75; 35; 25]
+  /\ map model.Insert.rT t' = [300; 245; 235; 195; 185; 145; 100; 75; 35; 25; 0]
+  /\ map (hcell j_hot) t' = map Some [123 # 2; 123 # 2; 60; 54; 50; 34; 16; 6; 0; 0; 0]
+  /\ forallb (fun r => match hcell j_hot r with Some q => qeqb q (heat_below ex_hot (model.Insert.rT r)) | None => false end) t' = true
+  /\ (Qh_tab t', Qc_tab t', Qh_of ex_p, Qc_of ex_p) = (33 # 2, 10, 33 # 2, 10).
+Proof. exact ex_history. Qed.
+Print Assumptions C05_inserted_rows_example.
